@@ -1,6 +1,221 @@
-//! C10 — not built yet.
+//! C10 — encoders never panic on any constructible value.
+//!
+//! input: `v <VX value>` | `zimg <hex zinc text>` | `jimg <hex json text>` | `chain <kind> <depth>`.
+//! Each encoder (Zinc, Hayson to_string/to_vec/to_value, Display, Dict::dis) runs under its own
+//! `catch_unwind`; a panic is an oracle failure naming the encoder.  Correspondence: the Zinc text
+//! of the value equals the model's (`C10 enc V`), the decoder's image re-encodes to what the model
+//! says (`C10 enc V` on the decoded value).
+
 use crate::ctx::{CaseOut, Ctx};
+use crate::gen::{self, Cfg};
+use crate::vx;
+use libhaystack::encoding::zinc::decode::from_str;
+use libhaystack::encoding::zinc::encode::to_zinc_string;
+use libhaystack::val::*;
+use std::panic::{catch_unwind, AssertUnwindSafe};
 
-pub fn exec(_label: &str, _input: &str, _out: &mut CaseOut) {}
+fn ascii_xstr_types(v: &Value) -> bool {
+    fn d(d: &Dict) -> bool {
+        d.values().all(ascii_xstr_types)
+    }
+    match v {
+        Value::XStr(x) => x.r#type.chars().next().map_or(true, |c| c.is_ascii()),
+        Value::List(l) => l.iter().all(ascii_xstr_types),
+        Value::Dict(dd) => d(dd),
+        Value::Grid(g) => {
+            g.meta.as_ref().map_or(true, d) && g.columns.iter().all(|c| c.meta.as_ref().map_or(true, d)) && g.rows.iter().all(d)
+        }
+        _ => true,
+    }
+}
 
-pub fn generate(_ctx: &mut Ctx) {}
+pub fn encode_all(v: &Value, out: &mut CaseOut, correspond: bool) {
+    match catch_unwind(AssertUnwindSafe(|| to_zinc_string(v))) {
+        Err(_) => out.fail("panic_zinc", format!("to_zinc_string panicked on {}", vx::show(v))),
+        Ok(r) => {
+            if correspond && ascii_xstr_types(v) {
+                let reply = match r {
+                    Ok(t) => format!("ok {}", vx::h(&t)),
+                    Err(_) => "err".into(),
+                };
+                out.req(format!("C10 enc {}", vx::show(v)), reply);
+            }
+        }
+    }
+    if catch_unwind(AssertUnwindSafe(|| serde_json::to_string(v).map(|s| s.len()))).is_err() {
+        out.fail("panic_json", format!("serde_json::to_string panicked on {}", vx::show(v)));
+    }
+    if catch_unwind(AssertUnwindSafe(|| serde_json::to_vec(v).map(|s| s.len()))).is_err() {
+        out.fail("panic_json", format!("serde_json::to_vec panicked on {}", vx::show(v)));
+    }
+    if catch_unwind(AssertUnwindSafe(|| serde_json::to_value(v).is_ok())).is_err() {
+        out.fail("panic_json", format!("serde_json::to_value panicked on {}", vx::show(v)));
+    }
+    if catch_unwind(AssertUnwindSafe(|| v.to_string().len())).is_err() {
+        out.fail("panic_display", format!("Value::to_string panicked on {}", vx::show(v)));
+    }
+    if let Value::Dict(d) = v {
+        if catch_unwind(AssertUnwindSafe(|| d.dis().len())).is_err() {
+            out.fail("panic_dis", format!("Dict::dis panicked on {}", vx::show(v)));
+        }
+    }
+    if let Value::Grid(g) = v {
+        for r in &g.rows {
+            if catch_unwind(AssertUnwindSafe(|| r.dis().len())).is_err() {
+                out.fail("panic_dis", format!("Dict::dis panicked on a row of {}", vx::show(v)));
+            }
+        }
+    }
+}
+
+/// a value nested `depth` deep
+pub fn chain(kind: &str, depth: usize) -> Value {
+    let mut v = Value::XStr(XStr { r#type: String::new(), value: String::new() });
+    for i in 0..depth {
+        v = match kind {
+            "list" => Value::List(vec![v]),
+            "dict" => {
+                let mut d = Dict::new();
+                d.insert(if i % 2 == 0 { "a".into() } else { String::new() }, v);
+                Value::Dict(d)
+            }
+            "grid" => {
+                let mut d = Dict::new();
+                d.insert("a".into(), v);
+                Value::Grid(Grid { meta: None, columns: vec![Column { name: "a".into(), meta: None }], rows: vec![d], ver: "3.0".into() })
+            }
+            _ => {
+                let mut d = Dict::new();
+                d.insert("m".into(), v);
+                match i % 3 {
+                    0 => Value::List(vec![Value::Dict(d)]),
+                    1 => Value::Grid(Grid { meta: Some(d), columns: vec![], rows: vec![], ver: String::new() }),
+                    _ => Value::Grid(Grid { meta: None, columns: vec![Column { name: "é".into(), meta: Some(d) }], rows: vec![Dict::new()], ver: "x".into() }),
+                }
+            }
+        };
+    }
+    v
+}
+
+pub fn exec(_label: &str, input: &str, out: &mut CaseOut) {
+    let (mode, rest) = input.split_once(' ').unwrap_or((input, ""));
+    match mode {
+        "v" => match vx::parse(rest) {
+            Some(v) => {
+                out.nontrivial = true;
+                out.stat(&format!("kind:{}", crate::c01::kind_name(&v)));
+                encode_all(&v, out, true);
+            }
+            None => out.fail("harness", "unparsable VX input".into()),
+        },
+        "zimg" => {
+            if let Some(text) = vx::unh(rest) {
+                if let Ok(Ok(v)) = catch_unwind(|| from_str(&text)) {
+                    out.nontrivial = true;
+                    out.stat("zinc_image");
+                    encode_all(&v, out, true);
+                }
+            }
+        }
+        "jimg" => {
+            if let Some(text) = vx::unh(rest) {
+                if let Ok(Ok(v)) = catch_unwind(|| serde_json::from_str::<Value>(&text)) {
+                    out.nontrivial = true;
+                    out.stat("json_image");
+                    encode_all(&v, out, true);
+                }
+            }
+        }
+        "chain" => {
+            let mut it = rest.split(' ');
+            let kind = it.next().unwrap_or("list");
+            let depth: usize = it.next().and_then(|s| s.parse().ok()).unwrap_or(1);
+            out.nontrivial = true;
+            out.stat("chain");
+            let v = chain(kind, depth);
+            encode_all(&v, out, depth <= 16);
+        }
+        _ => out.fail("harness", format!("unknown mode {mode}")),
+    }
+}
+
+pub fn generate(ctx: &mut Ctx) {
+    // the shapes the property names: empty / non-ASCII strings in every position, NaN, empty collections,
+    // grids whose rows and columns disagree, zero columns
+    let e = String::new;
+    let mut named: Vec<Value> = vec![
+        Value::XStr(XStr { r#type: e(), value: e() }),
+        Value::XStr(XStr { r#type: "élan".into(), value: "x".into() }),
+        Value::XStr(XStr { r#type: "ß".into(), value: "\"".into() }),
+        Value::XStr(XStr { r#type: "😀".into(), value: "\\".into() }),
+        Value::Ref(Ref { value: e(), dis: Some(e()) }),
+        Value::Ref(Ref { value: "é \"".into(), dis: Some("\"\\".into()) }),
+        Value::Symbol(Symbol { value: e() }),
+        Value::Uri(Uri { value: "\u{0}`\\é😀".into() }),
+        Value::Str(Str { value: "\u{0}\u{1f}\"\\$é😀".into() }),
+        Value::make_number(f64::NAN),
+        Value::Number(Number { value: f64::NAN, unit: libhaystack::units::get_unit("m") }),
+        Value::Number(Number { value: f64::NEG_INFINITY, unit: libhaystack::units::get_unit("%") }),
+        Value::Coord(Coord { lat: f64::NAN, long: f64::INFINITY }),
+        Value::List(vec![]),
+        Value::Dict(Dict::new()),
+        Value::Grid(Grid::default()),
+        Value::Grid(Grid { meta: Some(Dict::new()), columns: vec![], rows: vec![Dict::new(), Dict::new()], ver: e() }),
+    ];
+    let mut d = Dict::new();
+    d.insert(e(), Value::Null);
+    d.insert("é".into(), Value::Marker);
+    d.insert("a b".into(), Value::make_str(""));
+    named.push(Value::Dict(d.clone()));
+    named.push(Value::Grid(Grid { meta: Some(d.clone()), columns: vec![Column { name: e(), meta: Some(d.clone()) }], rows: vec![d.clone()], ver: "\"".into() }));
+    named.push(Value::Grid(Grid { meta: None, columns: vec![Column { name: "a".into(), meta: None }], rows: vec![d.clone()], ver: "3.0".into() }));
+    for key in ["dis", "disMacro", "disKey", "name", "def", "tag", "navName", "id"] {
+        for val in [Value::make_str("$a ${b} $<c> $"), Value::Null, Value::XStr(XStr { r#type: e(), value: e() }), Value::make_number(f64::NAN)] {
+            let mut dd = Dict::new();
+            dd.insert(key.into(), val);
+            named.push(Value::Dict(dd));
+        }
+    }
+    for v in named {
+        ctx.case("named", &format!("v {}", vx::show(&v)));
+    }
+    let n = ctx.n(4000, 150_000);
+    for i in 0..n {
+        let mut rng = ctx.rng.fork();
+        let mut cfg = Cfg::any(if i % 8 == 0 { 6 } else { 3 });
+        cfg.max_len = 3;
+        let v = gen::value(&mut rng, &cfg);
+        ctx.case("rand", &format!("v {}", vx::show(&v)));
+    }
+    for kind in ["list", "dict", "grid", "mix"] {
+        for depth in [1usize, 2, 8, 16, 32, 63, 64] {
+            ctx.case("chain", &format!("chain {kind} {depth}"));
+        }
+    }
+    // the image of both decoders on damaged documents
+    let docs = crate::c03::sample_docs(ctx, ctx.n(30, 200));
+    let n = ctx.n(2000, 60_000);
+    for _ in 0..n {
+        let mut rng = ctx.rng.fork();
+        let d = rng.pick(&docs).clone();
+        let m = if rng.chance(1, 3) { d } else { crate::c03::mutate_bytes(&mut rng, &d) };
+        if let Ok(s) = String::from_utf8(m) {
+            ctx.case("zimg", &format!("zimg {}", vx::h(&s)));
+        }
+    }
+    let n = ctx.n(1500, 40_000);
+    for _ in 0..n {
+        let mut rng = ctx.rng.fork();
+        let v = gen::value(&mut rng, &Cfg::any(3));
+        if let Ok(j) = serde_json::to_string(&v) {
+            let m = if rng.chance(1, 2) { j.into_bytes() } else { crate::c03::mutate_bytes(&mut rng, j.as_bytes()) };
+            if let Ok(s) = String::from_utf8(m) {
+                ctx.case("jimg", &format!("jimg {}", vx::h(&s)));
+            }
+        }
+    }
+    for j in ["{\"_kind\":\"xstr\",\"type\":\"\",\"val\":\"x\"}", "{\"_kind\":\"xstr\",\"type\":\"é\",\"val\":\"\"}", "{\"_kind\":\"ref\",\"val\":\"\"}", "{\"_kind\":\"grid\",\"cols\":[],\"rows\":[{\"x\":1}]}", "{\"\":{\"_kind\":\"symbol\",\"val\":\"\"}}"] {
+        ctx.case("jimg", &format!("jimg {}", vx::h(j)));
+    }
+}
